@@ -459,6 +459,9 @@ func c12Gen(tier string, rng *rand.Rand) []c12Case {
 			add(c12Scn{Pool: pool, GraceMs: 9000, Signal: "DIRECT", Conns: busy(c12ConnScn{Pre: []int{50, 0, 300}, Pipelined: true}, c12ConnScn{Pre: []int{300}}, c12ConnScn{})})
 			// tiny job queue: the receive loop blocks in handleConn
 			add(c12Scn{Pool: pool, QueueCap: 1, Phase: "sent", Conns: []c12ConnScn{{Pre: []int{100, 100, 100, 100, 100, 100}, Pipelined: true}}})
+			// ... and the same with the trigger only after the server has read everything (the receive loop sits in
+			// handleConn with the rest of the requests in its buffer): nothing that was read may be dropped
+			add(c12Scn{Pool: pool, QueueCap: 2, Conns: []c12ConnScn{{Pre: []int{100, 100, 100, 100, 100, 100, 100, 100}, Pipelined: true}, {Pre: []int{50, 50, 50}, Pipelined: true}}})
 			// many queued jobs on several connections
 			add(c12Scn{Pool: pool, Conns: []c12ConnScn{{Pre: []int{50, 50, 50, 50, 50}, Pipelined: true}, {Pre: []int{50, 50, 50}}, {Pre: []int{300}, Post: []int{0, 0, 0}, PostDelayMs: 50}}})
 		}
